@@ -5,13 +5,17 @@ import (
 	"encoding/json"
 	"os"
 	"strconv"
+	"sync/atomic"
 	"testing"
+	"time"
 )
 
 // TestWorker runs the scenarios of $VH_IN (ndjson) from index $VH_FROM on and appends
 // their events to $VH_OUT. It exits with status 3 after a hang (the parent restarts a
 // fresh worker on the remaining scenarios); a library panic kills the process and the
 // parent attributes it to the scenario whose "begin" has no "end".
+var curIdx atomic.Int64
+
 func TestWorker(t *testing.T) {
 	in := os.Getenv("VH_IN")
 	if in == "" {
@@ -42,6 +46,27 @@ func TestWorker(t *testing.T) {
 		w.WriteByte('\n')
 		w.Flush()
 	}
+	// watchdog (real time, outside every bubble): a scenario during which nothing is recorded for 12 s has a goroutine
+	// that spins without ever blocking - a livelock the gate scheduler cannot see, because the bubble never comes to rest
+	go func() {
+		seen, quiet := int64(-1), 0
+		for {
+			time.Sleep(500 * time.Millisecond)
+			r := currentRun.Load()
+			if n := lastEvent.Load(); r == nil || n != seen {
+				seen, quiet = n, 0
+				continue
+			}
+			if quiet++; quiet >= 24 {
+				r.spinning()
+				b, _ := json.Marshal(Event{"ev": "finish", "tr": r.sc.ID, "idx": int(curIdx.Load()), "fatal": "hang"})
+				w.Write(b)
+				w.WriteByte('\n')
+				w.Flush()
+				os.Exit(3)
+			}
+		}
+	}()
 	scn := bufio.NewScanner(f)
 	scn.Buffer(make([]byte, 1<<20), 1<<26)
 	idx := -1
@@ -54,6 +79,7 @@ func TestWorker(t *testing.T) {
 		if err := json.Unmarshal(scn.Bytes(), &sc); err != nil {
 			t.Fatalf("scenario %d: %v", idx, err)
 		}
+		curIdx.Store(int64(idx))
 		// the begin marker is written before the run so that a crash is attributable
 		b, _ := json.Marshal(Event{"ev": "start", "tr": sc.ID, "idx": idx})
 		w.Write(b)
